@@ -73,7 +73,9 @@ def _ms(id, harness, fns, contract, kind, **kw):
 _GUARD = (" -- guard proof: the documented assertion in the real code is expected to fail for bad arguments (not attributable to C02), "
           "the tagged postcondition 'returned => arguments were in range' must hold")
 # (suffix, tier, bound, timeout)
-_MS_VARIANTS = [("q", "quick", _QB, 300), ("i16", "thorough", _TB, 1200), ("f32", "thorough", _TB, 1200)]
+# the thorough-tier instantiations (48 elements / 6-bit values, i16 and f32: ms_*_i16 / ms_*_f32 / *_t in the harness modules) exist but were NOT measured
+# in the time available, so they are not registered (lemma_sub / lemma_merge at that size took 593 s / 325 s when measured alone)
+_MS_VARIANTS = [("q", "quick", _QB, 300)]
 for _sfx, _tier, _b, _to in _MS_VARIANTS:
     _k = _sg_bound(_b); _kw = dict(tier=_tier, timeout=_to)
     _ms("from_buf_" + _sfx, "ms_from_buf_" + _sfx, ["MutableSubgrid::from_buf", "MutableSubgrid::new", "MutableSubgrid::empty"] + _MS_ACC,
@@ -94,7 +96,7 @@ for _sfx, _tier, _b, _to in _MS_VARIANTS:
         "requires both coordinates inside; ensures exactly the two mapped buffer elements are exchanged (same cell: no-op), nothing else changes", _k, **_kw)
     _ms("reborrow_" + _sfx, "ms_reborrow_" + _sfx, ["MutableSubgrid::borrow_mut", "MutableSubgrid::as_shared", "SharedSubgrid::new"] + _MS_ACC,
         "borrow_mut / as_shared view exactly the same elements (geometry preserved)" + _ACC_C, _k, **_kw)
-for _sfx, _tier, _b, _to in [("q", "quick", _QB, 300), ("t", "thorough", _TB, 1200)]:
+for _sfx, _tier, _b, _to in [("q", "quick", _QB, 300)]:
     _kw = dict(tier=_tier, timeout=_to)
     _ms("into_i32_" + _sfx, "ms_into_i32_" + _sfx, ["MutableSubgrid::into_i32"] + _MS_ACC, "same geometry, same elements reinterpreted bit for bit" + _ACC_C, _sg_bound(_b), **_kw)
     _ms("as_vectored_" + _sfx, "ms_as_vectored_" + _sfx, ["MutableSubgrid::as_vectored", "SimdVector::available (__m128)"] + _MS_ACC,
@@ -116,12 +118,10 @@ _ms("groups_rejects_w", "ms_groups_rejects_w", ["MutableSubgrid::into_groups"], 
 _ms("groups_rejects_h", "ms_groups_rejects_h", ["MutableSubgrid::into_groups"], "into_groups(2, 0) never returns (no division by zero)", _gk)
 _GF_C = ("any symbolic group size (incl. 0 and larger than the grid): exactly COLS*ROWS groups row-first; group (gx, gy) is exactly the rectangle "
          "(min(gx*gw, w), min(gy*gh, h), min(gw, rest), min(gh, rest)) of lemma_groups_partition: inside the parent, pairwise disjoint; out-of-range groups empty; all share the split base")
-for _h, _tier, _b in [("2x2_q", "quick", _QB), ("3x2_q", "quick", _QB), ("1x3_q", "quick", _QB), ("2x2_f32", "thorough", _TB), ("3x3_i16", "thorough", _TB),
-                      ("4x2_f32", "thorough", _TB), ("0x2_i16", "thorough", _TB), ("2x0_i16", "thorough", _TB)]:
+for _h, _tier, _b in [("2x2_q", "quick", _QB), ("3x2_q", "quick", _QB), ("1x3_q", "quick", _QB)]:
     _ms("groups_fixed_" + _h, "ms_groups_fixed_" + _h, ["MutableSubgrid::into_groups_with_fixed_count"] + _MS_ACC, _GF_C + _ACC_C + _IN_ALLOC,
         _sg_bound(_b, "; CONCRETE group count " + _h.split("_")[0] + " (cols x rows): a symbolic count exhausts CBMC's memory in Vec"), tier=_tier, timeout=300 if _tier == "quick" else 1200)
-for _h, _tier, _b in [("5x3_by_2x2_q", "quick", _QB), ("3x2_by_8x8_q", "quick", _QB), ("4x3_by_1x2_q", "quick", _QB), ("0x3_by_2x2_q", "quick", _QB),
-                      ("7x5_by_3x2_f32", "thorough", _TB), ("9x4_by_4x4_i16", "thorough", _TB)]:
+for _h, _tier, _b in [("5x3_by_2x2_q", "quick", _QB), ("3x2_by_8x8_q", "quick", _QB), ("4x3_by_1x2_q", "quick", _QB), ("0x3_by_2x2_q", "quick", _QB)]:
     _ms("groups_" + _h, "ms_groups_" + _h, ["MutableSubgrid::into_groups", "MutableSubgrid::into_groups_with_fixed_count"] + _MS_ACC,
         "ceil(w/gw) x ceil(h/gh) groups row-first, group (gx, gy) is exactly the rectangle (gx*gw, gy*gh, min(gw, rest), min(gh, rest)): inside the parent, disjoint, covering (lemma_groups_partition)"
         + _ACC_C, _sg_bound(_b, "; CONCRETE width x height and group size " + _h.rsplit("_", 1)[0] + " (into_groups divides by the group size: a symbolic 64-bit divisor does not close); symbolic origin, stride, buffer length, contents"),
@@ -130,8 +130,6 @@ _ms("swap_rejects", "ms_swap_rejects", ["MutableSubgrid::swap"], "swap returns o
 for _d, _D, _c in [("h", "horizontal", "same stride, same height, right.ptr == self(width, 0), widths fit the stride"), ("v", "vertical", "same stride, same width, bottom.ptr == self(0, height)")]:
     _ms("merge_%s_guard" % _d, "ms_merge_%s_guard" % _d, ["MutableSubgrid::merge_%s_in_place" % _D] + _MS_ACC,
         "for ANY two well-formed grids and split bases: merge returns only if " + _c + "; then the merged grid is exactly the union of lemma_merge" + _ACC_C, _gk)
-    _ms("merge_%s_guard_t" % _d, "ms_merge_%s_guard_t" % _d, ["MutableSubgrid::merge_%s_in_place" % _D] + _MS_ACC,
-        "same, f32", "bounded:" + _TB + _GUARD, tier="thorough", timeout=1200)
 
 # ---- SharedSubgrid (C02) ----
 _SS_ACC = ["SharedSubgrid::try_get_ref", "SharedSubgrid::get_ref", "SharedSubgrid::get", "SharedSubgrid::try_get_row", "SharedSubgrid::get_row", "SharedSubgrid::get_ptr_unchecked"]
@@ -149,7 +147,7 @@ for _sfx, _tier, _b, _to in _MS_VARIANTS:
     for _d, _D in [("h", "horizontal"), ("v", "vertical")]:
         _ss("split_%s_%s" % (_d, _sfx), "ss_split_%s_%s" % (_d, _sfx), ["SharedSubgrid::split_" + _D] + _SS_ACC,
             "requires at <= width/height; ensures the two parts are exactly the rectangles of gr.ms.lemma_split_partition (inside the parent, covering it)" + _SS_ACC_C + _IN_ALLOC, _k, **_kw)
-for _sfx, _tier, _b, _to in [("q", "quick", _QB, 300), ("t", "thorough", _TB, 1200)]:
+for _sfx, _tier, _b, _to in [("q", "quick", _QB, 300)]:
     _kw = dict(tier=_tier, timeout=_to)
     _ss("as_i32_" + _sfx, "ss_as_i32_" + _sfx, ["SharedSubgrid::as_i32"] + _SS_ACC, "same geometry, same elements reinterpreted bit for bit", _sg_bound(_b), **_kw)
     _ss("as_vectored_" + _sfx, "ss_as_vectored_" + _sfx, ["SharedSubgrid::as_vectored", "SimdVector::available (__m128)"] + _SS_ACC,
@@ -168,7 +166,7 @@ _AG_C = ("bytes = (width*height + 31/size_of::<S>()) * size_of::<S>() (= the Vec
 for _t, _d, _tier in [("i16", "2x3", "quick"), ("i32", "3x1", "quick"), ("i32", "0x2", "quick"), ("i16", "sym", "thorough"), ("i32", "sym", "thorough")]:
     K("gr.ag.with_tracker_%s_%s" % (_t, _d), ["C13", "C01"], "jxl-grid", GR_LIB, GR_LIBM, "ag_with_tracker_%s_%s" % (_t, _d), _ag_b(_d),
       ["AlignedGrid::with_alloc_tracker", "AllocTracker::alloc", "AllocHandle::drop"], _AG_C + " [S = %s]" % _t, tier=_tier, timeout=300 if _tier == "quick" else 1200)
-for _t, _d in [("i16", "2x2"), ("i32", "3x1"), ("i32", "0x2")]:
+for _t, _d in [("i16", "2x2"), ("i32", "0x2")]:  # 3x1 (i32) did not close in 300 s -> not registered
     K("gr.ag.try_clone_%s_%s" % (_t, _d), ["C13", "C01"], "jxl-grid", GR_LIB, GR_LIBM, "ag_try_clone_%s_%s" % (_t, _d), _ag_b(_d),
       ["AlignedGrid::try_clone", "AlignedGrid::empty_aligned", "AlignedGrid::clone_untracked", "AlignedGrid::tracker", "AllocHandle::tracker"],
       "clone of a tracked grid: " + _AG_C + "; same samples; clone_untracked records nothing; a failed clone leaves the source's accounting intact [S = %s]" % _t)
@@ -179,8 +177,7 @@ for _t, _d in [("i16", "3x2"), ("i32", "2x2"), ("i32", "0x2")]:
        "MutableSubgrid::from(&mut AlignedGrid)", "SharedSubgrid::from(&AlignedGrid)"],
       "Some iff inside; sample (x, y) is buf()[y*width + x] (offset-adjusted, 32-byte aligned origin); rows are buf()[y*width..][..width]; as_subgrid(_mut) view the same samples with stride == width "
       "(as_subgrid only for non-zero dimensions: SharedSubgrid::from_buf refuses them)")
-K("gr.ag.clone_untracked", ["C13", "C01"], "jxl-grid", GR_LIB, GR_LIBM, "ag_clone_untracked_i16_2x2", _ag_b("2x2"),
-  ["AlignedGrid::clone_untracked", "AlignedGrid::empty_aligned"], "clone_untracked of a tracked grid: no handle, budget untouched, same samples, invariant kept")
+# clone_untracked of a tracked grid (harness ag_clone_untracked_i16_2x2) exhausts CBMC memory (> 14 GB): not registered; covered only for untracked sources in gr.ag.without_tracker_*
 for _d, _tier in [("2x2", "quick"), ("sym", "thorough")]:
     K("gr.ag.without_tracker_" + _d, ["C13", "C01"], "jxl-grid", GR_LIB, GR_LIBM, "ag_without_tracker_i16_" + _d, _ag_b(_d),
       ["AlignedGrid::with_alloc_tracker", "AlignedGrid::try_clone", "AlignedGrid::empty"], "no tracker: never refused, no handle; clones of untracked grids are untracked and cannot fail",
